@@ -191,8 +191,33 @@ func checkSortJSON(c *fw.Ctx) {
 func checkSortUnconditional(c *fw.Ctx, fn *ssa.Function, call ssa.CallInstruction) {
 	rule := "5 key-order"
 	construct := fw.FuncName(fn) + ": the entries are sorted on every path"
+	// conditions under which the entries themselves come into being (the routine is only
+	// applied to objects, say) do not make the sort conditional
+	born := map[*ssa.If]bool{}
+	if len(call.Common().Args) > 0 {
+		root := call.Common().Args[0]
+		for i := 0; i < 6; i++ {
+			switch x := root.(type) {
+			case *ssa.Slice:
+				root = x.X
+				continue
+			case *ssa.UnOp:
+				root = x.X
+				continue
+			case *ssa.ChangeType:
+				root = x.X
+				continue
+			}
+			break
+		}
+		if ins, ok := root.(ssa.Instruction); ok && ins.Block() != nil {
+			for _, f := range fw.DomConds(ins.Block()) {
+				born[f.If] = true
+			}
+		}
+	}
 	for _, f := range fw.DomConds(call.Block()) {
-		if fw.IsErrCheck(f) {
+		if fw.IsErrCheck(f) || born[f.If] {
 			continue
 		}
 		okGuard := false
